@@ -16,9 +16,16 @@ package bug
 // Read-only accessors of the compiled snapshot.
 //@ func (*Snapshot).SearchCommentByOpId
 //@ func (*Snapshot).SearchComment
-//@ func Comment.CombinedId
 //@   trusted
 //@   modifies nothing
+// A comment without combined id is a coding error (the accessor panics on purpose).
+//@ func Comment.CombinedId
+//@   props C10
+//@   maypanic
+//@   opt pre_only_if=commentids
+//@   requires [has-id] c.combinedId != ""
+//@   modifies nothing
+//@   ensures result == c.combinedId
 
 // ---- interpretation of operations (C10) -------------------------------------------------------------
 
@@ -50,7 +57,7 @@ package bug
 //@   ensures [prefix-kept] len(snap.Actors) >= n && (forall k int :: { snap.Actors[k] } 0 <= k && k < n ==> snap.Actors[k] == old(snap.Actors[k]))
 //@   ensures [unchanged-if-present] present ==> len(snap.Actors) == n
 //@   ensures [added-if-absent] !present ==> len(snap.Actors) == n + 1 && snap.Actors[n] == actor
-//@   ensures [now-present]     exists k int :: 0 <= k && k < len(snap.Actors) && snap.Actors[k].Id() == actor.Id()
+//@   ensures [now-present]     exists k int :: { snap.Actors[k] } 0 <= k && k < len(snap.Actors) && snap.Actors[k].Id() == actor.Id()
 //@   ensures [same-or-fresh-array] (sarr(snap.Actors) == sarr(old(snap.Actors)) && sarr(snap.Actors) != 0) || fresh(snap.Actors) || len(snap.Actors) == 0
 //@   loop 1
 //@     invariant forall k int :: { snap.Actors[k] } 0 <= k && k <= rangeindex ==> snap.Actors[k].Id() != actor.Id()
@@ -65,7 +72,7 @@ package bug
 //@   ensures [prefix-kept] len(snap.Participants) >= n && (forall k int :: { snap.Participants[k] } 0 <= k && k < n ==> snap.Participants[k] == old(snap.Participants[k]))
 //@   ensures [unchanged-if-present] present ==> len(snap.Participants) == n
 //@   ensures [added-if-absent] !present ==> len(snap.Participants) == n + 1 && snap.Participants[n] == participant
-//@   ensures [now-present]     exists k int :: 0 <= k && k < len(snap.Participants) && snap.Participants[k].Id() == participant.Id()
+//@   ensures [now-present]     exists k int :: { snap.Participants[k] } 0 <= k && k < len(snap.Participants) && snap.Participants[k].Id() == participant.Id()
 //@   ensures [same-or-fresh-array] (sarr(snap.Participants) == sarr(old(snap.Participants)) && sarr(snap.Participants) != 0) || fresh(snap.Participants) || len(snap.Participants) == 0
 //@   loop 1
 //@     invariant forall k int :: { snap.Participants[k] } 0 <= k && k <= rangeindex ==> snap.Participants[k].Id() != participant.Id()
@@ -83,7 +90,7 @@ package bug
 //@   ensures [title]    snapshot.Title == op.Title
 //@   ensures [timeline] len(snapshot.Timeline) == n + 1 && (forall k int :: { snapshot.Timeline[k] } 0 <= k && k < n ==> snapshot.Timeline[k] == old(snapshot.Timeline[k]))
 //@   ensures [item]     typeof(snapshot.Timeline[n]) == type[*SetTitleTimelineItem] && snapshot.Timeline[n].(*SetTitleTimelineItem).Title == op.Title && snapshot.Timeline[n].(*SetTitleTimelineItem).Was == op.Was && snapshot.Timeline[n].(*SetTitleTimelineItem).Author == op.Author() && snapshot.Timeline[n].(*SetTitleTimelineItem).combinedId == entity.CombineIds(snapshot.id, op.Id())
-//@   ensures [actor]    exists k int :: 0 <= k && k < len(snapshot.Actors) && snapshot.Actors[k].Id() == op.Author().Id()
+//@   ensures [actor]    exists k int :: { snapshot.Actors[k] } 0 <= k && k < len(snapshot.Actors) && snapshot.Actors[k].Id() == op.Author().Id()
 
 //@ func (*SetStatusOperation).Apply
 //@   props C10
@@ -95,7 +102,7 @@ package bug
 //@   ensures [status]   snapshot.Status == op.Status
 //@   ensures [timeline] len(snapshot.Timeline) == n + 1 && (forall k int :: { snapshot.Timeline[k] } 0 <= k && k < n ==> snapshot.Timeline[k] == old(snapshot.Timeline[k]))
 //@   ensures [item]     typeof(snapshot.Timeline[n]) == type[*SetStatusTimelineItem] && snapshot.Timeline[n].(*SetStatusTimelineItem).Status == op.Status && snapshot.Timeline[n].(*SetStatusTimelineItem).Author == op.Author() && snapshot.Timeline[n].(*SetStatusTimelineItem).combinedId == entity.CombineIds(snapshot.id, op.Id())
-//@   ensures [actor]    exists k int :: 0 <= k && k < len(snapshot.Actors) && snapshot.Actors[k].Id() == op.Author().Id()
+//@   ensures [actor]    exists k int :: { snapshot.Actors[k] } 0 <= k && k < len(snapshot.Actors) && snapshot.Actors[k].Id() == op.Author().Id()
 
 // a comment timeline item starts with the comment's own text, files, author and id
 //@ func NewCommentTimelineItem
@@ -119,8 +126,8 @@ package bug
 //@   ensures [comment]  snapshot.Comments[n].Message == op.Message && snapshot.Comments[n].Files == op.Files && snapshot.Comments[n].Author == op.Author() && snapshot.Comments[n].targetId == op.Id() && snapshot.Comments[n].combinedId == entity.CombineIds(snapshot.id, op.Id())
 //@   ensures [timeline] len(snapshot.Timeline) == m + 1 && (forall k int :: { snapshot.Timeline[k] } 0 <= k && k < m ==> snapshot.Timeline[k] == old(snapshot.Timeline[k])) && typeof(snapshot.Timeline[m]) == type[*AddCommentTimelineItem]
 //@   ensures [item]     snapshot.Timeline[m].(*AddCommentTimelineItem).CommentTimelineItem.Message == op.Message && snapshot.Timeline[m].(*AddCommentTimelineItem).CommentTimelineItem.combinedId == entity.CombineIds(snapshot.id, op.Id())
-//@   ensures [actor]       exists k int :: 0 <= k && k < len(snapshot.Actors) && snapshot.Actors[k].Id() == op.Author().Id()
-//@   ensures [participant] exists k int :: 0 <= k && k < len(snapshot.Participants) && snapshot.Participants[k].Id() == op.Author().Id()
+//@   ensures [actor]       exists k int :: { snapshot.Actors[k] } 0 <= k && k < len(snapshot.Actors) && snapshot.Actors[k].Id() == op.Author().Id()
+//@   ensures [participant] exists k int :: { snapshot.Participants[k] } 0 <= k && k < len(snapshot.Participants) && snapshot.Participants[k].Id() == op.Author().Id()
 
 // create: (on a snapshot whose id is unset or already this operation's id) the snapshot takes the
 // operation's id, title and author, has exactly one comment (the message), one create timeline item, and
@@ -137,8 +144,99 @@ package bug
 //@   ensures [id-title-author] !foreign ==> snapshot.id == op.Id() && snapshot.Title == op.Title && snapshot.Author == op.Author()
 //@   ensures [one-comment]     !foreign ==> len(snapshot.Comments) == 1 && snapshot.Comments[0].Message == op.Message && snapshot.Comments[0].Author == op.Author() && snapshot.Comments[0].targetId == op.Id() && snapshot.Comments[0].combinedId == entity.CombineIds(op.Id(), op.Id())
 //@   ensures [one-item]        !foreign ==> len(snapshot.Timeline) == 1 && typeof(snapshot.Timeline[0]) == type[*CreateTimelineItem] && snapshot.Timeline[0].(*CreateTimelineItem).CommentTimelineItem.Message == op.Message
-//@   ensures [actor]           !foreign ==> exists k int :: 0 <= k && k < len(snapshot.Actors) && snapshot.Actors[k].Id() == op.Author().Id()
-//@   ensures [participant]     !foreign ==> exists k int :: 0 <= k && k < len(snapshot.Participants) && snapshot.Participants[k].Id() == op.Author().Id()
+//@   ensures [actor]           !foreign ==> exists k int :: { snapshot.Actors[k] } 0 <= k && k < len(snapshot.Actors) && snapshot.Actors[k].Id() == op.Author().Id()
+//@   ensures [participant]     !foreign ==> exists k int :: { snapshot.Participants[k] } 0 <= k && k < len(snapshot.Participants) && snapshot.Participants[k].Id() == op.Author().Id()
+
+// The combined id of a timeline item is fixed when the item is made.
+//@ func TimelineItem.CombinedId
+//@   purefn
+
+// Appending an edit to a comment's timeline item touches only that item.
+//@ func (*CommentTimelineItem).Append
+//@   props C10
+//@   nopanic
+//@   opt interior_ok
+//@   requires c != nil
+//@   modifies c.Message, c.Files, c.LastEdit, c.History, elems(c.History)
+//@   ensures [text-and-files] c.Message == comment.Message && c.Files == comment.Files && c.LastEdit == comment.unixTime
+//@   ensures [history-grows]  len(c.History) == len(old(c.History)) + 1 && c.History[len(c.History) - 1].Message == comment.Message && c.History[len(c.History) - 1].Author == comment.Author
+
+// edit-comment: the target is the first timeline item whose combined id is (bug id, op.Target). An edit of
+// an unknown target, or of an item that is not a comment, changes nothing at all - in particular its
+// author does not become an actor. Otherwise the author becomes an actor and the first comment with that
+// combined id takes the operation's text and files; no comment is added or removed.
+//@ func (*EditCommentOperation).Apply
+//@   props C10
+//@   nopanic
+//@   opt commentids
+//@   requires [objects] op != nil && snapshot != nil && op.Author() != nil && (forall k int :: { snapshot.Actors[k] } 0 <= k && k < len(snapshot.Actors) ==> snapshot.Actors[k] != nil) && (forall k int :: { snapshot.Timeline[k] } 0 <= k && k < len(snapshot.Timeline) ==> snapshot.Timeline[k] != nil && (typeof(snapshot.Timeline[k]) == type[*CreateTimelineItem] ==> snapshot.Timeline[k].(*CreateTimelineItem) != nil) && (typeof(snapshot.Timeline[k]) == type[*AddCommentTimelineItem] ==> snapshot.Timeline[k].(*AddCommentTimelineItem) != nil))
+//@   requires [valid-ids] len(snapshot.id) >= 50 && len(op.Target) >= 14 && (forall k int :: { snapshot.Comments[k] } 0 <= k && k < len(snapshot.Comments) ==> snapshot.Comments[k].combinedId != "")
+//@   let cid = entity.CombineIds(snapshot.id, op.Target)
+//@   let n = len(old(snapshot.Timeline))
+//@   let known = old(exists k int :: { snapshot.Timeline[k] } 0 <= k && k < len(snapshot.Timeline) && snapshot.Timeline[k].CombinedId() == cid)
+//@   let isComment = old(exists k int :: { snapshot.Timeline[k] } 0 <= k && k < len(snapshot.Timeline) && snapshot.Timeline[k].CombinedId() == cid && (forall j int :: { snapshot.Timeline[j] } 0 <= j && j < k ==> snapshot.Timeline[j].CombinedId() != cid) && (typeof(snapshot.Timeline[k]) == type[*CreateTimelineItem] || typeof(snapshot.Timeline[k]) == type[*AddCommentTimelineItem]))
+//@   let unchanged = snapshot.Actors == old(snapshot.Actors) && (forall k int :: { snapshot.Actors[k] } 0 <= k && k < len(snapshot.Actors) ==> snapshot.Actors[k] == old(snapshot.Actors[k])) && snapshot.Comments == old(snapshot.Comments) && (forall k int :: { snapshot.Comments[k] } 0 <= k && k < len(snapshot.Comments) ==> snapshot.Comments[k] == old(snapshot.Comments[k])) && snapshot.Timeline == old(snapshot.Timeline) && snapshot.Participants == old(snapshot.Participants) && snapshot.Title == old(snapshot.Title) && snapshot.Status == old(snapshot.Status) && snapshot.Labels == old(snapshot.Labels)
+//@   ensures [unknown-target-is-noop]     !known ==> unchanged
+//@   ensures [non-comment-target-is-noop] !isComment ==> unchanged
+//@   ensures [author-becomes-actor]       isComment ==> (exists k int :: { snapshot.Actors[k] } 0 <= k && k < len(snapshot.Actors) && snapshot.Actors[k].Id() == op.Author().Id())
+//@   ensures [same-comments]              len(snapshot.Comments) == len(old(snapshot.Comments)) && snapshot.Timeline == old(snapshot.Timeline)
+//@   ensures [comment-edited]       isComment ==> (forall k int :: { snapshot.Comments[k] } 0 <= k && k < len(snapshot.Comments) && old(snapshot.Comments[k]).combinedId == cid && (forall j int :: { snapshot.Comments[j] } 0 <= j && j < k ==> old(snapshot.Comments[j]).combinedId != cid) ==> snapshot.Comments[k].Message == op.Message && snapshot.Comments[k].Files == op.Files && snapshot.Comments[k].combinedId == cid && snapshot.Comments[k].Author == old(snapshot.Comments[k]).Author)
+//@   ensures [other-comments-kept]  forall k int :: { snapshot.Comments[k] } 0 <= k && k < len(snapshot.Comments) && !(0 <= k && k < len(snapshot.Comments) && old(snapshot.Comments[k]).combinedId == cid && (forall j int :: { snapshot.Comments[j] } 0 <= j && j < k ==> old(snapshot.Comments[j]).combinedId != cid)) ==> snapshot.Comments[k] == old(snapshot.Comments[k])
+//@   loop 2
+//@     invariant snapshot.Comments == old(snapshot.Comments)
+//@     invariant forall k int :: { snapshot.Comments[k] } 0 <= k && k < len(snapshot.Comments) ==> snapshot.Comments[k] == old(snapshot.Comments[k])
+//@     invariant forall k int :: { snapshot.Comments[k] } 0 <= k && k <= rangeindex ==> snapshot.Comments[k].combinedId != cid
+//@   loop 1
+//@     invariant target == nil
+//@     invariant forall k int :: { snapshot.Timeline[k] } 0 <= k && k <= rangeindex ==> snapshot.Timeline[k].CombinedId() != cid
+
+// label-change: labels are a duplicate-free set; the additions of the operation are applied first, then
+// its removals. Afterwards no removed label is left, there are still no duplicates, and every label comes
+// from the previous labels or from the additions. (sort.Slice is modelled as a permutation: the resulting
+// order is not decided here.) The author becomes an actor and the timeline gains one label-change item.
+//@ func (*LabelChangeOperation).Apply
+//@   props C10
+//@   nopanic
+//@   requires [objects]   op != nil && snapshot != nil && op.Author() != nil && (forall k int :: { snapshot.Actors[k] } 0 <= k && k < len(snapshot.Actors) ==> snapshot.Actors[k] != nil)
+//@   requires [valid-ids] len(snapshot.id) >= 50 && len(op.Id()) >= 14
+//@   requires [no-dup]    forall i int :: { snapshot.Labels[i] } forall j int :: { snapshot.Labels[j] } 0 <= i && i < j && j < len(snapshot.Labels) ==> snapshot.Labels[i] != snapshot.Labels[j]
+//@   requires [separate]  sarr(snapshot.Labels) != sarr(op.Added) && sarr(snapshot.Labels) != sarr(op.Removed)
+//@   modifies all(Snapshot.Labels), allelems(Label), snapshot.Actors, elems(snapshot.Actors), snapshot.Timeline, elems(snapshot.Timeline)
+//@   let n0 = len(old(snapshot.Labels))
+//@   let m = len(old(snapshot.Timeline))
+//@   ensures [no-removed-left] forall k int :: { snapshot.Labels[k] } forall j int :: { op.Removed[j] } 0 <= k && k < len(snapshot.Labels) && 0 <= j && j < len(op.Removed) ==> snapshot.Labels[k] != op.Removed[j]
+//@   ensures [no-dup]          forall i int :: { snapshot.Labels[i] } forall j int :: { snapshot.Labels[j] } 0 <= i && i < j && j < len(snapshot.Labels) ==> snapshot.Labels[i] != snapshot.Labels[j]
+//@   ensures [nothing-else]    forall k int :: { snapshot.Labels[k] } 0 <= k && k < len(snapshot.Labels) ==> (exists i int :: { old(snapshot.Labels[i]) } 0 <= i && i < n0 && old(snapshot.Labels[i]) == snapshot.Labels[k]) || (exists j int :: { op.Added[j] } 0 <= j && j < len(op.Added) && op.Added[j] == snapshot.Labels[k])
+//@   ensures [old-kept]        forall i int :: { old(snapshot.Labels[i]) } 0 <= i && i < n0 && (forall j int :: { op.Removed[j] } 0 <= j && j < len(op.Removed) ==> op.Removed[j] != old(snapshot.Labels[i])) ==> (exists k int :: { snapshot.Labels[k] } 0 <= k && k < len(snapshot.Labels) && snapshot.Labels[k] == old(snapshot.Labels[i]))
+//@   ensures [added-kept]      forall a int :: { op.Added[a] } 0 <= a && a < len(op.Added) && (forall j int :: { op.Removed[j] } 0 <= j && j < len(op.Removed) ==> op.Removed[j] != op.Added[a]) ==> (exists k int :: { snapshot.Labels[k] } 0 <= k && k < len(snapshot.Labels) && snapshot.Labels[k] == op.Added[a])
+//@   ensures [timeline] len(snapshot.Timeline) == m + 1 && (forall k int :: { snapshot.Timeline[k] } 0 <= k && k < m ==> snapshot.Timeline[k] == old(snapshot.Timeline[k])) && typeof(snapshot.Timeline[m]) == type[*LabelChangeTimelineItem]
+//@   ensures [item]     snapshot.Timeline[m].(*LabelChangeTimelineItem).Added == op.Added && snapshot.Timeline[m].(*LabelChangeTimelineItem).Removed == op.Removed && snapshot.Timeline[m].(*LabelChangeTimelineItem).Author == op.Author() && snapshot.Timeline[m].(*LabelChangeTimelineItem).combinedId == entity.CombineIds(snapshot.id, op.Id())
+//@   ensures [actor]    exists k int :: { snapshot.Actors[k] } 0 <= k && k < len(snapshot.Actors) && snapshot.Actors[k].Id() == op.Author().Id()
+//@   loop 1
+//@     invariant [l1-nodup]  forall i int :: { snapshot.Labels[i] } forall j int :: { snapshot.Labels[j] } 0 <= i && i < j && j < len(snapshot.Labels) ==> snapshot.Labels[i] != snapshot.Labels[j]
+//@     invariant [l1-origin] forall k int :: { snapshot.Labels[k] } 0 <= k && k < len(snapshot.Labels) ==> (exists i int :: { old(snapshot.Labels[i]) } 0 <= i && i < n0 && old(snapshot.Labels[i]) == snapshot.Labels[k]) || (exists j int :: { op.Added[j] } 0 <= j && j < len(op.Added) && op.Added[j] == snapshot.Labels[k])
+//@     invariant [l1-sep]    sarr(snapshot.Labels) != sarr(op.Added) && sarr(snapshot.Labels) != sarr(op.Removed)
+//@     invariant [l1-prefix] len(snapshot.Labels) >= n0 && (forall i int :: { old(snapshot.Labels[i]) } 0 <= i && i < n0 ==> snapshot.Labels[i] == old(snapshot.Labels[i]))
+//@     invariant [l1-added]  forall a int :: { op.Added[a] } 0 <= a && a <= rangeindex ==> (exists k int :: { snapshot.Labels[k] } 0 <= k && k < len(snapshot.Labels) && snapshot.Labels[k] == op.Added[a])
+//@   loop 2
+//@     invariant [l2-absent] forall k int :: { snapshot.Labels[k] } 0 <= k && k <= rangeindex ==> snapshot.Labels[k] != added
+//@   loop 3
+//@     invariant [l3-nodup]  forall i int :: { snapshot.Labels[i] } forall j int :: { snapshot.Labels[j] } 0 <= i && i < j && j < len(snapshot.Labels) ==> snapshot.Labels[i] != snapshot.Labels[j]
+//@     invariant [l3-origin] forall k int :: { snapshot.Labels[k] } 0 <= k && k < len(snapshot.Labels) ==> (exists i int :: { old(snapshot.Labels[i]) } 0 <= i && i < n0 && old(snapshot.Labels[i]) == snapshot.Labels[k]) || (exists j int :: { op.Added[j] } 0 <= j && j < len(op.Added) && op.Added[j] == snapshot.Labels[k])
+//@     invariant [l3-sep]    sarr(snapshot.Labels) != sarr(op.Added) && sarr(snapshot.Labels) != sarr(op.Removed)
+//@     invariant [l3-removed] forall k int :: { snapshot.Labels[k] } forall j int :: { op.Removed[j] } 0 <= k && k < len(snapshot.Labels) && 0 <= j && j <= rangeindex ==> snapshot.Labels[k] != op.Removed[j]
+//@     invariant [l3-old-kept]   forall i int :: { old(snapshot.Labels[i]) } 0 <= i && i < n0 && (forall j int :: { op.Removed[j] } 0 <= j && j <= rangeindex ==> op.Removed[j] != old(snapshot.Labels[i])) ==> (exists k int :: { snapshot.Labels[k] } 0 <= k && k < len(snapshot.Labels) && snapshot.Labels[k] == old(snapshot.Labels[i]))
+//@     invariant [l3-added-kept] forall a int :: { op.Added[a] } 0 <= a && a < len(op.Added) && (forall j int :: { op.Removed[j] } 0 <= j && j <= rangeindex ==> op.Removed[j] != op.Added[a]) ==> (exists k int :: { snapshot.Labels[k] } 0 <= k && k < len(snapshot.Labels) && snapshot.Labels[k] == op.Added[a])
+//@   loop 4
+//@     invariant [l4-nodup]  forall i int :: { snapshot.Labels[i] } forall j int :: { snapshot.Labels[j] } 0 <= i && i < j && j < len(snapshot.Labels) ==> snapshot.Labels[i] != snapshot.Labels[j]
+//@     invariant [l4-origin] forall k int :: { snapshot.Labels[k] } 0 <= k && k < len(snapshot.Labels) ==> (exists i int :: { old(snapshot.Labels[i]) } 0 <= i && i < n0 && old(snapshot.Labels[i]) == snapshot.Labels[k]) || (exists j int :: { op.Added[j] } 0 <= j && j < len(op.Added) && op.Added[j] == snapshot.Labels[k])
+//@     invariant [l4-sep]    sarr(snapshot.Labels) == sarr(rangeslice) && soff(snapshot.Labels) == soff(rangeslice) && len(snapshot.Labels) <= len(rangeslice) && sarr(snapshot.Labels) != sarr(op.Added) && sarr(snapshot.Labels) != sarr(op.Removed)
+//@     invariant [l4-removed] forall k int :: { snapshot.Labels[k] } forall j int :: { op.Removed[j] } 0 <= k && k < len(snapshot.Labels) && 0 <= j && j <= rangeindex3 ==> snapshot.Labels[k] != op.Removed[j]
+//@     invariant [l4-current] removed == op.Removed[rangeindex3 + 1]
+//@     invariant [l4-old-kept]   forall i int :: { old(snapshot.Labels[i]) } 0 <= i && i < n0 && (forall j int :: { op.Removed[j] } 0 <= j && j <= rangeindex3 ==> op.Removed[j] != old(snapshot.Labels[i])) && old(snapshot.Labels[i]) != removed ==> (exists k int :: { snapshot.Labels[k] } 0 <= k && k < len(snapshot.Labels) && snapshot.Labels[k] == old(snapshot.Labels[i]))
+//@     invariant [l4-added-kept] forall a int :: { op.Added[a] } 0 <= a && a < len(op.Added) && (forall j int :: { op.Removed[j] } 0 <= j && j <= rangeindex3 ==> op.Removed[j] != op.Added[a]) && op.Added[a] != removed ==> (exists k int :: { snapshot.Labels[k] } 0 <= k && k < len(snapshot.Labels) && snapshot.Labels[k] == op.Added[a])
+//@     invariant [l4-seen]   forall k int :: { snapshot.Labels[k] } 0 <= k && k <= rangeindex && k < len(snapshot.Labels) ==> snapshot.Labels[k] != removed
+//@     invariant [l4-stale]  forall k int :: { rangeslice[k] } len(snapshot.Labels) <= k && k < len(rangeslice) && k > rangeindex ==> rangeslice[k] != removed
 
 //@ func (*Bug).Operations
 //@   trusted
